@@ -47,6 +47,10 @@ pub struct KaCase {
     /// prove that our pings get through
     #[serde(default)]
     pub peer_ping_every: u64,
+    /// from this virtual time (ms) on the transport's sink is not writable any more (poll_ready stays Pending: a full send buffer
+    /// towards a host that went away); 0 = always writable. Nothing sent after that point reaches the peer, so no pong comes back.
+    #[serde(default)]
+    pub sink_stalls_at: u64,
 }
 
 struct Rec {
@@ -64,6 +68,7 @@ struct ClockWs {
     nping: u32,
     silent: bool,
     ended: bool,
+    stall_at: u64,
 }
 
 /// tokio's timer has millisecond granularity; intervals are multiples of 10 ms and every pong delay ends in 5 ms,
@@ -78,6 +83,10 @@ fn ms_since(start: Instant) -> u64 {
 
 impl WebSocket for ClockWs {
     fn poll_ready_unpin(&mut self, _cx: &mut Context<'_>) -> Poll<Result<(), penguin_mux::Error>> {
+        if self.stall_at > 0 && ms_since(self.start) >= self.stall_at {
+            // never writable again; nobody will wake this waiter
+            return Poll::Pending;
+        }
         Poll::Ready(Ok(()))
     }
     fn start_send_unpin(&mut self, item: Message) -> Result<(), penguin_mux::Error> {
@@ -158,7 +167,7 @@ pub fn run_ka(c: &KaCase) -> KaResult {
         let start = Instant::now();
         let rec = Arc::new(Mutex::new(Rec { pings: vec![], pongs_scheduled: vec![], closed_at: None }));
         let (tx, rx) = mpsc::unbounded_channel();
-        let ws = ClockWs { start, rec: rec.clone(), rx, tx, pong: c.pong.clone(), nping: 0, silent: c.silent_transport, ended: false };
+        let ws = ClockWs { start, rec: rec.clone(), rx, tx, pong: c.pong.clone(), nping: 0, silent: c.silent_transport, ended: false, stall_at: c.sink_stalls_at };
         if c.peer_ping_every > 0 {
             // the peer's own pings, 3 ms off the 10 ms grid so that they coincide neither with a tick nor with a pong
             let (txp, every) = (ws.tx.clone(), c.peer_ping_every);
@@ -221,7 +230,9 @@ pub fn check_ka(c: &KaCase) -> Outcome {
         return Outcome::pass(c.timeout != 0, classes);
     }
     let alive_until = ended_at.unwrap_or(r.horizon);
-    let want_trim: Vec<u64> = (0..).map(|k| k * i).take_while(|t| *t < alive_until).collect();
+    // (with a sink that stops being writable, pings are expected on the wire only before that moment)
+    let sendable_until = if c.sink_stalls_at > 0 { alive_until.min(c.sink_stalls_at) } else { alive_until };
+    let want_trim: Vec<u64> = (0..).map(|k| k * i).take_while(|t| *t < sendable_until).collect();
     let got_trim: Vec<u64> = r.pings.iter().copied().filter(|t| *t < alive_until).collect();
     // nothing may be sent at or after the end of the task (the tick that declares the timeout sends no ping)
     if ended_at.is_some() && r.pings.iter().any(|t| *t >= alive_until) {
@@ -249,11 +260,12 @@ pub fn check_ka(c: &KaCase) -> Outcome {
                 );
             }
             // never for a live peer
-            let live = match &c.pong {
-                Pong::Const(d) => eff_delay(*d) <= to,
-                Pong::PerPing(v) => v.iter().all(|d| eff_delay(*d) < i.min(to)),
-                _ => false,
-            };
+            let live = c.sink_stalls_at == 0
+                && match &c.pong {
+                    Pong::Const(d) => eff_delay(*d) <= to,
+                    Pong::PerPing(v) => v.iter().all(|d| eff_delay(*d) < i.min(to)),
+                    _ => false,
+                };
             if live {
                 return Outcome::violation("c16-timeout-on-live-peer", format!("I={i} T={to}: every ping is answered ({:?}) yet the task ended with KeepaliveTimeout at {t} ms", c.pong));
             }
@@ -311,6 +323,9 @@ pub fn check_ka(c: &KaCase) -> Outcome {
     if c.peer_ping_every > 0 {
         classes.push("peer-sends-pings-too");
     }
+    if c.sink_stalls_at > 0 {
+        classes.push("sink-stops-being-writable");
+    }
     Outcome::pass(answered_before_silence || non_multiple, classes)
 }
 
@@ -335,13 +350,15 @@ fn ka_case() -> impl Strategy<Value = KaCase> {
                 2 => (lim + 1..lim * 3 + 2).prop_map(Pong::Const),
             ];
             let peer = prop_oneof![4 => Just(0u64), 1 => Just((i / 20).max(1) * 10), 1 => Just(i.max(10)), 1 => Just(250u64)];
-            (Just(i), Just(t), pong, any::<bool>(), peer).prop_map(|(interval, timeout, pong, silent_transport, peer_ping_every)| KaCase { interval, timeout, pong, silent_transport, peer_ping_every })
+            // a sink that stops being writable at some multiple of 10 ms + 7 (never at a tick, a pong or a peer ping)
+            let stall = prop_oneof![5 => Just(0u64), 2 => (0u64..(12 * i.max(10)) / 10).prop_map(|x| x * 10 + 7)];
+            (Just(i), Just(t), pong, any::<bool>(), peer, stall).prop_map(|(interval, timeout, pong, silent_transport, peer_ping_every, sink_stalls_at)| KaCase { interval, timeout, pong, silent_transport, peer_ping_every, sink_stalls_at })
         })
     })
 }
 
 pub fn c16(ctx: &Ctx, rep: &mut Report) {
-    rep.rule = "(I, T) pairs in ms incl. T < I (clamped by the options API, applied in the client's order), T = I, T a multiple / not a multiple of I, either or both disabled; pong policies: constant delay (<= T and late > T), per-ping delays < min(I,T), answered for k rounds then silent, never; in 3 of 7 cases the peer also sends Pings of its own (every I/2, I or 250 ms) whether or not it answers; \
+    rep.rule = "(I, T) pairs in ms incl. T < I (clamped by the options API, applied in the client's order), T = I, T a multiple / not a multiple of I, either or both disabled; pong policies: constant delay (<= T and late > T), per-ping delays < min(I,T), answered for k rounds then silent, never; in 3 of 7 cases the peer also sends Pings of its own (every I/2, I or 250 ms) whether or not it answers; in 2 of 7 cases the transport's sink stops being writable at a generated moment (from then on nothing reaches the peer, so no pong returns); \
                 transport answering the final Close or staying silent; horizon 20 intervals + T on tokio's paused clock (exact virtual time). Oracle: a ping exactly every I while alive; a KeepaliveTimeout at tau satisfies T <= tau - last pong <= T+I; a connection that survived has no pong-free gap longer than T+I; \
                 peers answering every ping within the bound never time out; disabled values send no ping / never time out; after the end the task future completes and pending get_datagram/accept calls fail with Closed. \
                 Non-trivial = at least one pong arrived before the silence began, or T is not a multiple of I. Distinct = distinct case value."
